@@ -27,7 +27,13 @@ from vcommon import Failure, PropertyCheck, run_main
 
 EXACT = [0, 0, 0, 1, 1, 3, 3, 7, 15, 31, 63, 127, 1023, 2 ** 20 - 1]   # d/(1+d) is a dyadic rational
 INEXACT = [[2, 1], [5, 1], [10, 1], [1, 2], [5, 2],
-           [1, 2 ** 40], [1, 2 ** 40], [1, 2 ** 60]]   # near misses: positive but below any "tolerance"
+           [1, 2 ** 40], [1, 2 ** 40], [1, 2 ** 60],   # near misses: positive but below any "tolerance"
+           [2 ** 70, 1], [2 ** 1000, 1]]               # huge but finite: 1.0 + d == d in floats
+#: predicate kinds (reg["kinds"], parallel to reg["preds"]; absent = all "num").  "ng*" = no guidance towards
+#: the outcome that is not taken (`if obj:`, `is`, isinstance / exception matches, incomparable operands): the
+#: tracer reports inf for it on every execution.  "ngT"/"ngF": the outcome is always True / always False (the
+#: other distance stays inf however many tests are merged); "ng": the outcome varies.
+KINDS = ["num"] * 7 + ["ng", "ngT", "ngF"]
 
 
 # ---------------------------------------------------------------------------------------------
@@ -41,11 +47,17 @@ def dec_d(d) -> float:
 
 
 def enc_f(x):
-    """Python number → exact JSON value (never a float)"""
+    """Python number → exact JSON value (never a float): bool, [num, den], "nan", "inf", "-inf"; anything
+    that is not a real number → {"not-a-number": type name} (judged by compare / oracle, never raises)."""
     if isinstance(x, bool):
         return x
     if isinstance(x, int):
         return [x, 1]
+    if not isinstance(x, float):
+        try:
+            x = float(x)                     # numpy scalars, Fraction, Decimal …
+        except Exception:                    # noqa: BLE001
+            return {"not-a-number": type(x).__name__}
     if math.isnan(x):
         return "nan"
     if math.isinf(x):
@@ -54,18 +66,81 @@ def enc_f(x):
     return [fr.numerator, fr.denominator]
 
 
+def enc_b(x):
+    """A verdict: a bool stays a bool, anything else is named."""
+    return x if isinstance(x, bool) else {"not-a-bool": type(x).__name__}
+
+
+def enc_i(x):
+    """An integral fitness (`len(existing) - len(covered)`): int, else the exact encoding of enc_f."""
+    if isinstance(x, int):
+        return x
+    v = enc_f(x)
+    return v[0] if isinstance(v, list) and v[1] == 1 else v
+
+
+def from_impl(e: BaseException) -> bool:
+    """True when the exception passed through pynguin's own code (so it is the implementation's
+    behaviour on this input); an exception of the harness alone stays a machinery error."""
+    root = str(vcommon.REPO)
+    tb = e.__traceback__
+    while tb is not None:
+        if tb.tb_frame.f_code.co_filename.startswith(root):
+            return True
+        tb = tb.tb_next
+    return False
+
+
+def err_of(e: BaseException):
+    if isinstance(e, AssertionError) and str(e).startswith("harness:"):
+        raise e                              # StubExecutor was asked to execute: adapter bug
+    if not from_impl(e):
+        raise e
+    return {"err": type(e).__name__}
+
+
 def guard(f, enc=enc_f):
-    """Run f; map the exceptions the code is allowed to raise to {"err": name}."""
+    """Run the implementation call f.  Whatever it raises becomes {"err": type name} (the model knows
+    KeyError / RuntimeError / AssertionError; every other type disagrees with it and fails the oracle)."""
     try:
-        return {"ok": enc(f())}
-    except (KeyError, RuntimeError, AssertionError) as e:
-        return {"err": type(e).__name__}
+        v = f()
+    except Exception as e:                   # noqa: BLE001
+        return err_of(e)
+    return {"ok": enc(v)}
+
+
+def plain(f, enc):
+    """Like guard for values the model reports bare (verdicts, integral fitness): enc(value) or {"err": …}."""
+    try:
+        v = f()
+    except Exception as e:                   # noqa: BLE001
+        return err_of(e)
+    return enc(v)
+
+
+def is_true(v) -> bool:
+    return v is True
+
+
+def as_frac(v):
+    """Exact value of a canonical number ({"ok": [n, d]}, [n, d] or int) or None (raised / nan / inf / junk)."""
+    if isinstance(v, dict):
+        v = v.get("ok")
+    if isinstance(v, bool):
+        return None
+    if isinstance(v, int):
+        return Fraction(v)
+    if isinstance(v, list) and len(v) == 2 and all(isinstance(x, int) and not isinstance(x, bool) for x in v):
+        return Fraction(v[0], v[1])
+    return None
 
 
 def is_exact_dist(x: float) -> bool:
+    if math.isnan(x):
+        return False
     if math.isinf(x) or x == 0:
         return True
-    if x < 0 or x != int(x):
+    if x < 0 or x >= 2 ** 21 or x != int(x):
         return False
     n = int(x) + 1
     return n & (n - 1) == 0 and n <= 2 ** 20
@@ -139,31 +214,61 @@ def gen_registry(rng):
             for node in rng.sample(range(n), rng.randint(1, min(3, n))):
                 preds.append([cid, node])
     rng.shuffle(preds)
-    return {"codes": codes, "preds": preds, "n_lines": rng.choice([0, 1, 2, 3, 3, 4, 5])}
+    return {"codes": codes, "preds": preds, "n_lines": rng.choice([0, 1, 2, 3, 3, 4, 5]),
+            "kinds": [rng.choice(KINDS) for _ in preds]}
 
 
-def gen_trace(rng, reg, allow_inexact=True):
+def gen_pair(rng, kind, allow_inexact=True):
+    """One execution of a predicate of the given kind: [distance_true, distance_false]."""
+    if kind != "num":                        # no guidance towards the outcome that was not taken
+        taken = {"ngT": True, "ngF": False}.get(kind, rng.random() < 0.5)
+        return [[0, 1], "inf"] if taken else ["inf", [0, 1]]
+    if rng.random() < 0.8:                   # what the tracer records: one side is 0
+        d = gen_dist(rng, allow_inexact)
+        return [[0, 1], d] if rng.random() < 0.5 else [d, [0, 1]]
+    return [gen_dist(rng, allow_inexact), gen_dist(rng, allow_inexact)]
+
+
+def gen_trace(rng, reg, allow_inexact=True, once=False):
+    """`once`: straight-line tests — every predicate is executed at most once per trace, so that an
+    execution count >= 2 is reached only by merging."""
     code_ids = [c["id"] for c in reg["codes"]]
     code = [c for c in code_ids if rng.random() < 0.6]
     rng.shuffle(code)
     ups = []
     npred = len(reg["preds"])
+    kinds = reg.get("kinds") or ["num"] * npred
     if npred:
         for _ in range(rng.choice([0, 1, 2, 3, 4, 6])):
             p = rng.randrange(npred)
             if reg["preds"][p][0] not in code and rng.random() < 0.93:
                 continue                     # the instrumentation enters the code object first
-            if rng.random() < 0.8:           # what the tracer records: one side is 0
-                d = gen_dist(rng, allow_inexact)
-                pair = [[0, 1], d] if rng.random() < 0.5 else [d, [0, 1]]
-            else:
-                pair = [gen_dist(rng, allow_inexact), gen_dist(rng, allow_inexact)]
-            ups.append([p, pair[0], pair[1]])
+            if once and any(u[0] == p for u in ups):
+                continue
+            # a predicate in a loop is executed several times by one test (>= 2 executions in ONE trace)
+            for _ in range(1 if once else rng.choice([1, 1, 1, 1, 2, 3])):
+                pair = gen_pair(rng, kinds[p], allow_inexact)
+                ups.append([p, pair[0], pair[1]])
     lines = [l for l in range(reg["n_lines"]) if rng.random() < 0.5]
     rng.shuffle(lines)
     checked = [l for l in range(reg["n_lines"]) if rng.random() < 0.3]
     rng.shuffle(checked)
     return {"code": code, "updates": ups, "lines": lines, "checked": checked, "corrupt": []}
+
+
+def inf_rule_classes(merged, parts):
+    """Which instances of "uncovered outcome at distance inf, executed >= 2 times" (the `isinf` case of
+    the >= 2 executions rule) the real merged trace contains: reached inside one trace, or only by merging."""
+    out = set()
+    for p, n in merged.executed_predicates.items():
+        if n < 2:
+            continue
+        for d in (merged.true_distances, merged.false_distances):
+            v = d.get(p)
+            if v is not None and math.isinf(v):
+                single = any(t.executed_predicates.get(p, 0) >= 2 for t in parts)
+                out.add("inf-ge2:single-trace" if single else "inf-ge2:only-by-merging")
+    return sorted(out)
 
 
 def gen_corruption(rng, reg, trace):
@@ -343,25 +448,49 @@ def suite_values(traces, sp, ex):
     """Every suite-level fitness / coverage / verdict through the real classes of computations.py."""
     import pynguin.ga.computations as ff
     executor = StubExecutor(sp)
-    plain = ff.BranchDistanceTestSuiteFitnessFunction(executor)
+    unrestricted = ff.BranchDistanceTestSuiteFitnessFunction(executor)
     restricted = ff.BranchDistanceTestSuiteFitnessFunction(executor)
     restricted.restrict(set(ex["exCode"]), set(ex["exT"]), set(ex["exF"]))
     line = ff.LineTestSuiteFitnessFunction(executor)
     chk = ff.StatementCheckedTestSuiteFitnessFunction(executor)
     s = suite_of(traces)
     return {
-        "bfit": guard(lambda: plain.compute_fitness(s)),
+        "bfit": guard(lambda: unrestricted.compute_fitness(s)),
         "bfit_ex": guard(lambda: restricted.compute_fitness(s)),
-        "bis": plain.compute_is_covered(s),
-        "bis_ex": restricted.compute_is_covered(s),
+        "bis": plain(lambda: unrestricted.compute_is_covered(s), enc_b),
+        "bis_ex": plain(lambda: restricted.compute_is_covered(s), enc_b),
         "bcov": guard(lambda: ff.TestSuiteBranchCoverageFunction(executor).compute_coverage(s)),
         "lcov": guard(lambda: ff.TestSuiteLineCoverageFunction(executor).compute_coverage(s)),
         "ccov": guard(lambda: ff.TestSuiteStatementCheckedCoverageFunction(executor).compute_coverage(s)),
-        "lfit": line.compute_fitness(s),
-        "cfit": chk.compute_fitness(s),
-        "lis": line.compute_is_covered(s),
-        "cis": chk.compute_is_covered(s),
+        "lfit": plain(lambda: line.compute_fitness(s), enc_i),
+        "cfit": plain(lambda: chk.compute_fitness(s), enc_i),
+        "lis": plain(lambda: line.compute_is_covered(s), enc_b),
+        "cis": plain(lambda: chk.compute_is_covered(s), enc_b),
     }
+
+
+def summand_values(trace, sp):
+    """The branch fitness restricted to one single branch, for every branch: [p, true side, false side]
+    (`compute_branch_distance_fitness` with everything else excluded = one `_predicate_fitness` summand)."""
+    import pynguin.ga.fitness_metrics as fm
+    codes, preds = set(sp.existing_code_objects), list(sp.existing_predicates)
+    every = set(preds)
+    return [[p,
+             guard(lambda p=p: fm.compute_branch_distance_fitness(trace, sp, codes, every - {p}, every)),
+             guard(lambda p=p: fm.compute_branch_distance_fitness(trace, sp, codes, every, every - {p}))]
+            for p in preds]
+
+
+def summand_oracle(summands, where=""):
+    """C10 for the single-branch fitness functions: finite, in [0, 1] (only called for well-formed traces)."""
+    fs = []
+    for p, a, b in summands:
+        for side, v in (("true", a), ("false", b)):
+            f = as_frac(v)
+            if f is None or not 0 <= f <= 1:
+                fs.append(Failure({"fn": "_predicate_fitness", "class": "not-finite-in-unit-interval"},
+                                  f"{where}fitness restricted to the {side} branch of predicate {p} is {v!r}"))
+    return fs
 
 
 SUITE_KEYS = ["bfit", "bfit_ex", "bis", "bis_ex", "bcov", "lcov", "ccov", "lfit", "cfit", "lis", "cis"]
@@ -376,13 +505,16 @@ def hypotheses(sp, trace):
     try:
         sp.validate_execution_trace(trace)
         valid = all(l in sp.existing_lines for l in trace.checked_lines)
-    except AssertionError:
+    except Exception:                        # noqa: BLE001  (AssertionError on the unchanged code)
         valid = False
     rwf = all(m.code_object_id in sp.existing_code_objects for m in sp.existing_predicates.values())
-    goal = rwf and all(
-        (pid not in trace.executed_predicates or m.code_object_id in trace.executed_code_objects)
-        and sp.existing_code_objects[m.code_object_id].cfg.diameter >= 1
-        for pid, m in sp.existing_predicates.items())
+    try:
+        goal = rwf and all(
+            (pid not in trace.executed_predicates or m.code_object_id in trace.executed_code_objects)
+            and sp.existing_code_objects[m.code_object_id].cfg.diameter >= 1
+            for pid, m in sp.existing_predicates.items())
+    except Exception:                        # noqa: BLE001  (CFG.diameter of a changed implementation)
+        goal = False
     return {"shape": shape, "valid": valid, "rwf": rwf, "goal": goal}
 
 
@@ -398,12 +530,11 @@ def approx_flag(trace) -> bool:
 
 
 def suite_oracle(v, hyp, where=""):
-    """The suite-level part of C10 on implementation values `v` (a dict as built by suite_values)."""
+    """The suite-level part of C10 on implementation values `v` (a dict as built by suite_values).
+    A value that is an exception, NaN, an infinity or not a number at all has no exact value (`as_frac`
+    is None) and fails the clause that demands a finite number / a verdict."""
     fs = []
-
-    def val(key):
-        x = v[key]
-        return Fraction(x["ok"][0], x["ok"][1]) if isinstance(x, dict) and isinstance(x.get("ok"), list) else None
+    val = lambda key: as_frac(v[key])        # noqa: E731
 
     if hyp["shape"]:
         for key in ("bfit", "bfit_ex"):
@@ -413,7 +544,10 @@ def suite_oracle(v, hyp, where=""):
                                   f"{where}branch fitness {key} = {v[key]!r} is not a finite non-negative number"))
         for fk, ck in (("bfit", "bis"), ("bfit_ex", "bis_ex")):
             f = val(fk)
-            if f is not None and (f == 0) != bool(v[ck]):
+            if not isinstance(v[ck], bool):
+                fs.append(Failure({"fn": "compute_branch_distance_fitness_is_covered", "class": "no-verdict"},
+                                  f"{where}is_covered = {v[ck]!r} is not a verdict"))
+            elif f is not None and (f == 0) != v[ck]:
                 cls = "false-although-fitness-zero" if f == 0 else "true-although-fitness-positive"
                 fs.append(Failure({"fn": "compute_branch_distance_fitness_is_covered", "class": cls},
                                   f"{where}is_covered = {v[ck]} but branch fitness = {float(f)}"
@@ -429,11 +563,15 @@ def suite_oracle(v, hyp, where=""):
             fs.append(Failure({"fn": "compute_branch_coverage", "class": "fitness-zero-vs-coverage-one"},
                               f"{where}branch fitness {float(f)} but branch coverage {float(c)}"))
         for fit, cov, isc, name in (("lfit", "lcov", "lis", "line"), ("cfit", "ccov", "cis", "checked")):
-            c = val(cov)
-            if v[fit] < 0:
+            c, f = val(cov), val(fit)
+            if f is None or not isinstance(v[isc], bool):
+                fs.append(Failure({"fn": name + "-suite", "class": "raises-or-not-finite"},
+                                  f"{where}{name}: fitness {v[fit]!r}, is_covered {v[isc]!r}"))
+                continue
+            if f < 0:
                 fs.append(Failure({"fn": name + "-suite-fitness", "class": "negative"},
                                   f"{where}{name} suite fitness {v[fit]} is negative"))
-            if (v[fit] == 0) != bool(v[isc]) or (c is not None and (c == 1) != bool(v[isc])):
+            if (f == 0) != v[isc] or (c is not None and (c == 1) != v[isc]):
                 fs.append(Failure({"fn": name + "-suite", "class": "covered-verdict-vs-fitness-or-coverage"},
                                   f"{where}{name}: fitness {v[fit]}, coverage {v[cov]!r}, is_covered {v[isc]}"))
     return fs
@@ -448,7 +586,8 @@ class C10(PropertyCheck):
     n_thorough = 40000
     n_search = 6000
     rule = ("random registries (0-4 code objects, real CFG/CDG objects over random graphs, 0-3 predicates "
-            "each, 0-5 lines) x 1-3 random traces merged by analyze_results; non-trivial = all theorem "
+            "each, 30 % of them no-guidance kinds at distance inf, 0-5 lines) x 1-3 random traces (loop "
+            "predicates, 30 % straight-line families) merged by analyze_results; non-trivial = all theorem "
             "hypotheses hold, >= 1 predicate executed, every float exactly representable (approx-flagged "
             "cases are compared with tolerance 1e-12 and not counted)")
     assumptions = [
@@ -470,7 +609,8 @@ class C10(PropertyCheck):
     # -- generation ---------------------------------------------------------------------------
     def gen_case(self, rng):
         reg = gen_registry(rng)
-        traces = [gen_trace(rng, reg) for _ in range(rng.choice([1, 1, 2, 3]))]
+        once = rng.random() < 0.3
+        traces = [gen_trace(rng, reg, once=once) for _ in range(rng.choice([2, 3] if once else [1, 1, 2, 3]))]
         if rng.random() < 0.15:
             t = rng.choice(traces)
             t["corrupt"].append(gen_corruption(rng, reg, t))
@@ -502,31 +642,37 @@ class C10(PropertyCheck):
         import pynguin.ga.computations as ff
         import pynguin.ga.coveragegoals as cg
         import pynguin.ga.fitness_metrics as fm
-        merged = fm.analyze_results([result_of(t) for t in traces])
+        shape_each = all(hypotheses(sp, t)["shape"] for t in traces)
+        try:
+            merged = fm.analyze_results([result_of(t) for t in traces])
+        except Exception as e:               # noqa: BLE001  nothing else can be evaluated without the merged trace
+            self.count("raises:analyze_results")
+            return {"crashed": dict(err_of(e), fn="analyze_results"), "shape_each": shape_each,
+                    "approx": False, "hyp": dict.fromkeys(("shape", "valid", "rwf", "goal"), False)}
         hyp = hypotheses(sp, merged)
         approx = approx_flag(merged)
         executor = StubExecutor(sp)
         exs = (set(case["exCode"]), set(case["exT"]), set(case["exF"]))
-        out = {"trace": trace_state(merged), "hyp": hyp, "approx": approx}
+        out = {"trace": trace_state(merged), "hyp": hyp, "approx": approx, "shape_each": shape_each}
         # suite level, through the classes of computations.py
         out["suite"] = suite_values(traces, sp, case)
         # the same values by calling fitness_metrics directly on the merged trace
         out["fn"] = {
             "bfit": guard(lambda: fm.compute_branch_distance_fitness(merged, sp)),
             "bfit_ex": guard(lambda: fm.compute_branch_distance_fitness(merged, sp, *exs)),
-            "bis": fm.compute_branch_distance_fitness_is_covered(merged, sp),
-            "bis_ex": fm.compute_branch_distance_fitness_is_covered(merged, sp, *exs),
+            "bis": plain(lambda: fm.compute_branch_distance_fitness_is_covered(merged, sp), enc_b),
+            "bis_ex": plain(lambda: fm.compute_branch_distance_fitness_is_covered(merged, sp, *exs), enc_b),
             "bcov": guard(lambda: fm.compute_branch_coverage(merged, sp)),
             "lcov": guard(lambda: fm.compute_line_coverage(merged, sp)),
-            "lis": fm.compute_line_coverage_fitness_is_covered(merged, sp),
-            "cis": fm.compute_checked_coverage_statement_fitness_is_covered(merged, sp),
+            "lis": plain(lambda: fm.compute_line_coverage_fitness_is_covered(merged, sp), enc_b),
+            "cis": plain(lambda: fm.compute_checked_coverage_statement_fitness_is_covered(merged, sp), enc_b),
         }
         # test-case level classes on a chromosome whose result is the merged trace
         ch = chromosome_of(merged)
         tcf = ff.BranchDistanceTestCaseFitnessFunction(executor, 0)
         out["case_level"] = {
             "bfit": guard(lambda: tcf.compute_fitness(ch)),
-            "bis": tcf.compute_is_covered(ch),
+            "bis": plain(lambda: tcf.compute_is_covered(ch), enc_b),
             "bcov": guard(lambda: ff.TestCaseBranchCoverageFunction(executor).compute_coverage(ch)),
             "lcov": guard(lambda: ff.TestCaseLineCoverageFunction(executor).compute_coverage(ch)),
             "ccov": guard(lambda: ff.TestCaseStatementCheckedCoverageFunction(executor).compute_coverage(ch)),
@@ -537,27 +683,33 @@ class C10(PropertyCheck):
             f = ff.BranchDistanceTestSuiteFitnessFunction(executor)
             f.restrict(*exs)
             s.add_fitness_function(f)
-            fit = s.get_fitness_for(f)
-            out["cache"] = {"bfit_ex": enc_f(fit), "derived": s.get_is_covered(f),
-                            "computed": f.compute_is_covered(suite_of(traces))}
+            out["cache"] = {"bfit_ex": guard(lambda: s.get_fitness_for(f)),
+                            "derived": plain(lambda: s.get_is_covered(f), enc_b),
+                            "computed": plain(lambda: f.compute_is_covered(suite_of(traces)), enc_b)}
         # goals
         codes, branches, lines = [], [], []
         for cid in sp.existing_code_objects:
             g = cg.BranchCoverageTestFitness(executor, cg.BranchlessCodeObjectGoal(cid))
-            codes.append([cid, guard(lambda g=g: g.compute_fitness(ch)), g.compute_is_covered(ch)])
+            codes.append([cid, guard(lambda g=g: g.compute_fitness(ch)),
+                          plain(lambda g=g: g.compute_is_covered(ch), enc_b)])
         for pid, meta in sp.existing_predicates.items():
             for value in (True, False):
                 g = cg.BranchCoverageTestFitness(executor, cg.BranchGoal(meta.code_object_id, pid, value=value))
                 branches.append([pid, value, guard(lambda g=g: g.compute_fitness(ch)),
-                                 guard(lambda g=g: g.compute_is_covered(ch), enc=bool)])
+                                 guard(lambda g=g: g.compute_is_covered(ch), enc=enc_b)])
         for lid, meta in sp.existing_lines.items():
             lf = cg.LineCoverageTestFitness(executor, cg.LineCoverageGoal(meta.code_object_id, lid))
             cf = cg.StatementCheckedCoverageTestFitness(executor, cg.CheckedCoverageGoal(meta.code_object_id, lid))
-            lines.append([lid, enc_f(lf.compute_fitness(ch)), lf.compute_is_covered(ch),
-                          enc_f(cf.compute_fitness(ch)), cf.compute_is_covered(ch)])
+            lines.append([lid, plain(lambda lf=lf: lf.compute_fitness(ch), enc_f),
+                          plain(lambda lf=lf: lf.compute_is_covered(ch), enc_b),
+                          plain(lambda cf=cf: cf.compute_fitness(ch), enc_f),
+                          plain(lambda cf=cf: cf.compute_is_covered(ch), enc_b)])
         out["goals"] = {"codes": codes, "branches": branches, "lines": lines}
+        out["summands"] = summand_values(merged, sp)
         out["branchless"] = list(sp.branch_less_code_objects)
         # input distribution
+        for cl in inf_rule_classes(merged, traces):
+            self.count(cl)
         self.count("traces:%d" % len(traces))
         self.count("preds:%d" % len(sp.existing_predicates))
         self.count("hyp:" + ("all" if all(hyp.values()) else "-".join(k for k, b in hyp.items() if not b)))
@@ -565,6 +717,8 @@ class C10(PropertyCheck):
         for key in ("bfit", "bcov"):
             if "err" in out["suite"][key]:
                 self.count("raises:%s:%s" % (key, out["suite"][key]["err"]))
+        if hyp["shape"] and inf_rule_classes(merged, traces):
+            self.count("inf-ge2:with-shape")
         return out
 
     # -- model --------------------------------------------------------------------------------
@@ -573,7 +727,7 @@ class C10(PropertyCheck):
         return line if line is not None else vcommon.jdump(self.impl(case)["model_case"])
 
     def compare(self, case, io, mo):
-        if "bad-op" in mo or "unparsable" in mo:
+        if "bad-op" in mo or "unparsable" in mo or "crashed" in io:
             return False
         a, st = io["approx"], self.cmp_stats
         ok = deep_eq(io["trace"], mo["trace"], False, st)
@@ -581,51 +735,64 @@ class C10(PropertyCheck):
             ok &= all(deep_eq(io[src][k], mo["suite"][k], a, st) for k in io[src])
         ok &= all(deep_eq(io["case_level"][k], mo["case_level"][k], a, st) for k in io["case_level"])
         ok &= deep_eq(io["goals"], mo["goals"], a, st)
+        ok &= deep_eq(io["summands"], mo["summands"], a, st)
         self.extra_coverage["compare_modes"] = dict(self.cmp_stats)
         return bool(ok)
 
     # -- property oracle on the implementation ------------------------------------------------
     def oracle(self, case, io):
+        if "crashed" in io:
+            if not (io["shape_each"] or io.get("real")):
+                return []
+            return [Failure({"fn": io["crashed"]["fn"], "class": "raises-on-well-formed-traces"},
+                            f"{io['crashed']['fn']} raised {io['crashed']['err']} on well-formed traces")]
         # a real trace is a legitimate input whatever my hypotheses say: check it unconditionally
         hyp = dict.fromkeys(io["hyp"], True) if io.get("real") else io["hyp"]
         fs = suite_oracle(io["suite"], hyp)
         if hyp["shape"]:
+            fs += summand_oracle(io["summands"])
             c = io["cache"]
-            if c["derived"] != c["computed"]:
+            if c["derived"] != c["computed"] or not isinstance(c["derived"], bool):
                 fs.append(Failure({"fn": "ComputationCache", "class": "derived-verdict-vs-compute_is_covered"},
                                   f"ComputationCache derives is_covered={c['derived']} from fitness "
                                   f"{c['bfit_ex']}, compute_is_covered says {c['computed']}"))
             tl = io["case_level"]
-            if "ok" in tl["bfit"] and (Fraction(*tl["bfit"]["ok"]) == 0) != bool(tl["bis"]):
+            f = as_frac(tl["bfit"])
+            if f is None or not isinstance(tl["bis"], bool):
+                fs.append(Failure({"fn": "BranchDistanceTestCaseFitnessFunction", "class": "raises-or-not-finite"},
+                                  f"test-case level: is_covered={tl['bis']!r}, fitness={tl['bfit']!r}"))
+            elif (f == 0) != tl["bis"]:
                 fs.append(Failure({"fn": "BranchDistanceTestCaseFitnessFunction",
                                    "class": "covered-verdict-vs-fitness"},
                                   f"test-case level: is_covered={tl['bis']}, fitness={tl['bfit']}"))
         if all(hyp.values()):
             for cid, fit, cov in io["goals"]["codes"]:
                 if cid in io["branchless"]:
-                    fs += self._goal(fit, {"ok": cov}, f"BranchlessCodeObjectGoal({cid})", "branchless-goal")
+                    fs += self._goal(fit, cov, f"BranchlessCodeObjectGoal({cid})", "branchless-goal")
             for pid, value, fit, cov in io["goals"]["branches"]:
                 fs += self._goal(fit, cov, f"BranchGoal({pid}, {value})", "branch-goal")
         for lid, lf, lc, cf, cc in io["goals"]["lines"]:
-            fs += self._goal({"ok": lf}, {"ok": lc}, f"LineCoverageGoal({lid})", "line-goal")
-            fs += self._goal({"ok": cf}, {"ok": cc}, f"CheckedCoverageGoal({lid})", "checked-goal")
+            fs += self._goal(lf, lc, f"LineCoverageGoal({lid})", "line-goal")
+            fs += self._goal(cf, cc, f"CheckedCoverageGoal({lid})", "checked-goal")
         return fs
 
     @staticmethod
     def _goal(fit, cov, name, kind):
-        if "err" in fit or "err" in cov or not isinstance(fit["ok"], list):
+        """fit / cov: canonical values, bare or wrapped in {"ok": …}; {"err": …} when the call raised."""
+        f = as_frac(fit)
+        c = cov.get("ok") if isinstance(cov, dict) else cov
+        if f is None or not isinstance(c, bool):
             return [Failure({"fn": kind, "class": "raises-or-not-finite"},
                             f"{name}: fitness {fit!r}, is_covered {cov!r}")]
-        f = Fraction(fit["ok"][0], fit["ok"][1])
         if f < 0:
             return [Failure({"fn": kind, "class": "negative-fitness"}, f"{name}: fitness {float(f)}")]
-        if (f == 0) != bool(cov["ok"]):
+        if (f == 0) != c:
             return [Failure({"fn": kind, "class": "covered-verdict-vs-fitness"},
-                            f"{name}: is_covered={cov['ok']} but fitness={float(f)}")]
+                            f"{name}: is_covered={c} but fitness={float(f)}")]
         return []
 
     def classify(self, case, io):
-        if io["approx"] or not all(io["hyp"].values()) or not io["trace"]["cnt"]:
+        if "crashed" in io or io["approx"] or not all(io["hyp"].values()) or not io["trace"]["cnt"]:
             return None
         if "real" in case:
             return vcommon.jdump(case)
@@ -735,6 +902,38 @@ def outer(n):
         return k * 2
     return inner(n) + inner(-n)
 ''',
+    # predicates without guidance towards the outcome that is not taken: the real tracer reports inf for it
+    # (`_falsy_distance` of a plain object, `_eq` of objects of unknown type), in loops and across calls
+    "sutc10c": '''
+class Tok:
+    pass
+
+
+def truthy(n):
+    hits = 0
+    for _ in range(n):
+        t = Tok()
+        if t:
+            hits += 1
+    return hits
+
+
+def same(n, k):
+    toks = [Tok() for _ in range(n)]
+    marker = toks[k] if 0 <= k < n else Tok()
+    found = 0
+    for t in toks:
+        if t == marker:
+            found += 1
+    return found
+
+
+def once(flag):
+    t = Tok()
+    if t != flag:
+        return 1
+    return 0
+''',
 }
 
 
@@ -745,6 +944,9 @@ def real_call(name, rng):
         return rng.choice([
             {"f": "classify", "args": [r(-5, 25), r(-5, 25)]}, {"f": "classify", "args": [r(0, 3), r(0, 3)]},
             {"f": "helper", "args": ["ab"]}, {"f": "Acc", "args": [r(0, 3)], "m": "add", "margs": [r(-1, 4)]}])
+    if name == "sutc10c":
+        return rng.choice([{"f": "truthy", "args": [r(0, 3)]}, {"f": "same", "args": [r(0, 3), r(-1, 2)]},
+                           {"f": "once", "args": [r(0, 1)]}])
     words = ["", "a", "a b", "ab  cd", "x,y"]
     return rng.choice([
         {"f": "lookup", "args": [{"a": 1, "b": None}, rng.choice(["a", "b", "c", ""]), rng.choice([None, 7])]},
